@@ -313,3 +313,18 @@ def fault_if(detector, key="temperature", bad=None, token="isolation-fault"):
     val = detector.environment.temperature if key == "temperature" else detector.characteristics.quantum_efficiency
     if bad is not None and float(val) == float(bad):
         raise ProbeError(token)
+
+
+def fault2(detector, tag=None, token="tok", exc="ValueError", at_step=None, at_temp=None, armed=False):
+    """Log the call; raise the chosen exception class (carrying a unique token) at the chosen (run, step) site if armed."""
+    temp = getattr(detector.environment, "_temperature", None)
+    _log({"kind": "fault_call", "tag": tag, "step": int(detector.pipeline_count), "run": temp})
+    if armed and (at_step is None or int(detector.pipeline_count) == int(at_step)) and (at_temp is None or float(temp) == float(at_temp)):
+        if exc == "TwoArgError":
+            raise TwoArgError(token, 42)
+        classes = {"ValueError": ValueError, "KeyError": KeyError, "RuntimeError": RuntimeError, "ZeroDivisionError": ZeroDivisionError,
+                   "OSError": OSError, "ProbeError": ProbeError, "TypeError": TypeError, "IndexError": IndexError,
+                   "AssertionError": AssertionError, "StopIteration": StopIteration, "FloatingPointError": FloatingPointError}
+        raise classes[exc](token)
+    detector.pixel.array = detector.pixel.array + 1.0
+    detector.image.array = np.full(detector.geometry.shape, 3, dtype=np.uint16)
